@@ -38,6 +38,17 @@ TEMPLATES["deflist2"] = [("S", "DefinitionList"), ("S", "ItemTerm"), ("T", "Lite
                          ("S", "ItemTerm"), ("T", "Literal"), ("E", "ItemTerm"), ("S", "ItemBody"), ("T", "Text"), ("E", "ItemBody"), ("E", "DefinitionList")]
 
 
+# a usage line as bpaf writes it: every bracket, name and `]...` is a token of its own, so wraps are
+# decided at chunks such as `]...`
+_USAGE_ITEMS = 7
+TEMPLATES["usage"] = [("T", "Text"), ("T", "Literal"), ("T", "Text")] * _USAGE_ITEMS
+USAGE_FIXED = {}
+for _i in range(_USAGE_ITEMS):
+    USAGE_FIXED[str(3 * _i)] = "["
+    USAGE_FIXED[str(3 * _i + 1)] = "--" + "abcdefg"[_i] * (2 + _i % 3)
+    USAGE_FIXED[str(3 * _i + 2)] = "]... " if _i % 2 == 0 else "] "
+
+
 def text_exec(prog, budget=2500000):
     models = dict(TM.TEXT_MODELS)
     models.update(FM.FMT_MODELS)
@@ -273,6 +284,8 @@ def make_jobs(tier, seed, build):
     jobs = []
     total = 4 if tier == "quick" else 5
     for tname, t in TEMPLATES.items():
+        if tname == "usage":
+            continue  # all-concrete template of the width jobs
         nt = sum(1 for k, _ in t if k == "T")
         for lens in itertools.product(range(0, 4), repeat=nt):
             if sum(lens) > total or sum(lens) == 0:
@@ -294,6 +307,8 @@ def make_jobs(tier, seed, build):
                 if sum(l for i, l in enumerate(ls) if i != fixed_ix) > ((2 if tier == "quick" else 3) if fi == 0 else (1 if tier == "quick" else 2)):
                     continue
                 jobs.append({"id": "width:%s:%s:f%d" % (tname, ",".join(map(str, ls)), fi), "kind": "width", "template": tname, "lens": ls, "fixed": {str(fixed_ix): filler}})
+    jobs.append({"id": "width:usage:all-fixed", "kind": "width", "template": "usage",
+                 "lens": [len(USAGE_FIXED[str(i)]) for i in range(3 * _USAGE_ITEMS)], "fixed": dict(USAGE_FIXED)})
     return jobs
 
 
